@@ -3,6 +3,7 @@ import RsyncModel.MapFile
 import RsyncModel.PureTie
 import RsyncModel.RoundTripHonest
 import RsyncModel.Checksum
+import RsyncModel.SumsTie
 /-! # C02 — delta encoding and decoding are exact for every basis, target and block layout
 
 `Hs` (seeded strong block hash) and `Hfile` (seeded whole-file hash) are arbitrary functions: MD4 is
@@ -177,5 +178,32 @@ theorem source_receiver_loop (h : PureTie.Head32) (hok : h.ok) (cs : Nat) (basis
       | .ok (c, r) => .ok (c, r)
       | .error _ => .err :=
   RecvTie.recvLoop_tied h hok cs basis hasBasis inp acc
+
+/-- **The generator's signature loop, as the source has it** (`generateAndSendSums`, translated on every run with the
+basis file as a byte list that is consumed and the strong hash as a parameter): it reads the file to its end and writes, for
+each piece of the model's `splitBlocks` in order, the weak sum (`Checksum1` as translated) and the strong sum — for every
+file, block length ≥ 1 and the matching block count -/
+theorem source_sum_generator (H : List UInt8 → List UInt8) (bl : Int32) (blm1 : Nat) (hbl : bl.toInt = (blm1 + 1 : Nat))
+    (count : Int32) (file : List UInt8) (hcount : count.toInt = ((Delta.splitBlocks blm1 file).length : Nat)) (out : List Go.Out) :
+    Gen.Pure.genSums (file.length : Int) bl count file out H =
+      .ok (out ++ SumsTie.sumFrames H (Delta.splitBlocks blm1 file), []) :=
+  SumsTie.genSums_tied H bl blm1 hbl count file hcount out
+
+/-- **The sender's signature reader, as the source has it** (`receiveSums`' loop): per wire entry the index, the running
+offset, the model's `blockLen`, the weak sum and the strong-sum bytes; the rest of the input stays unread -/
+theorem source_sum_reader (h : PureTie.Head32) (hok : h.ok) (cs : Nat) (csLen : Int32) (ps : List (Int32 × List UInt8))
+    (rest : List UInt8) (L0 : Int) (hps : ∀ p ∈ ps, (p.2.length : Int) = csLen.toInt) (hn : (ps.length : Int) = h.count.toInt) :
+    Gen.Pure.recvSums h.count h.bl h.rem csLen (SumsTie.wireSums ps ++ rest) [] L0 = .ok (SumsTie.recs h cs 0 0 ps, rest) :=
+  SumsTie.recvSums_tied h hok cs csLen ps rest L0 hps hn
+
+/-- **and together**: what the translated generator loop sends, the translated sender loop reads as the honest
+signatures of the basis file's pieces -/
+theorem source_signatures_roundtrip (H : List UInt8 → List UInt8) (hH : ∀ w, (H w).length = 16) (h : PureTie.Head32) (hok : h.ok)
+    (cs blm1 : Nat) (hbl : h.bl.toInt = (blm1 + 1 : Nat)) (file rest : List UInt8)
+    (hcount : h.count.toInt = ((Delta.splitBlocks blm1 file).length : Nat)) (L0 : Int) :
+    ∃ out, Gen.Pure.genSums (file.length : Int) h.bl h.count file [] H = .ok (out, []) ∧
+      Gen.Pure.recvSums h.count h.bl h.rem 16 (SendFile.wireOf out ++ rest) [] L0 =
+        .ok (SumsTie.recs h cs 0 0 ((Delta.splitBlocks blm1 file).map fun w => ((Spec.checksum1 w).toInt32, H w)), rest) :=
+  SumsTie.signatures_roundtrip H hH h hok cs blm1 hbl file rest hcount L0
 
 end C02
